@@ -78,6 +78,9 @@ func runBounded(specs []BoundedSpec, repo, verif, work string) []BoundedResult {
 		ov := map[string]map[string]string{"Replace": {
 			filepath.Join(repo, pkg, "zz_verif_case_test.go"): file,
 		}}
+		if common := filepath.Join(filepath.Dir(file), "zz_conf_common_test.go"); fileExists(common) && common != file {
+			ov["Replace"][filepath.Join(repo, pkg, "zz_verif_conf_common_test.go")] = common
+		}
 		if !ss[0].NeedsNoHarness {
 			ov["Replace"][filepath.Join(repo, pkg, "zz_verif_harness_test.go")] = filepath.Join(verif, "harness", "zz_verif_harness_test.go")
 		}
@@ -130,6 +133,8 @@ func runBounded(specs []BoundedSpec, repo, verif, work string) []BoundedResult {
 	}
 	return res
 }
+
+func fileExists(p string) bool { _, err := os.Stat(p); return err == nil }
 
 func stripInfo(s string) string {
 	var keep []string
